@@ -383,27 +383,25 @@ type libRef struct {
 }
 
 type node struct {
-	w               *world
-	idx             int // producer index of this node (-1: observer)
-	store           chainStore
-	st              *dpos.Status
-	d               *dpos.DPoS
-	h               *dpos.VerifC08Handle
-	cm              *bp.Cluster
-	best            *sblk
-	main            []*sblk // harness reference of the main chain by number
-	known           map[*sblk]bool
-	rec             *recorder
-	maxLib          libRef   // highest LIB this node ever reported
-	lastNo          uint64   // LIB number reported after the previous complete arrival
-	fault           bool     // the history left the property's fault model (arbitrary Confirms, outsiders, injected gc): no property oracle
-	hist            []string // human-readable history of this node (replay)
-	sizeOv          int      // producer-count override in force (0 = none)
-	events          int
-	quiet           bool   // no per-node history (exploration: the schedule log replays the case)
-	prpsdAtRaise    int    // number of proposed-LIB entries when the LIB last advanced
-	reorgSinceRaise bool   // a permitted reorganisation happened since the LIB last advanced
-	taint           string // class of a tagged failure whose consequences later failures on this node are
+	w      *world
+	idx    int // producer index of this node (-1: observer)
+	store  chainStore
+	st     *dpos.Status
+	d      *dpos.DPoS
+	h      *dpos.VerifC08Handle
+	cm     *bp.Cluster
+	best   *sblk
+	main   []*sblk // harness reference of the main chain by number
+	known  map[*sblk]bool
+	rec    *recorder
+	maxLib libRef   // highest LIB this node ever reported
+	lastNo uint64   // LIB number reported after the previous complete arrival
+	fault  bool     // the history left the property's fault model (arbitrary Confirms, outsiders, injected gc): no property oracle
+	hist   []string // human-readable history of this node (replay)
+	sizeOv int      // producer-count override in force (0 = none)
+	events int
+	quiet  bool   // no per-node history (exploration: the schedule log replays the case)
+	taint  string // class of a tagged failure whose consequences later failures on this node are
 }
 
 func (n *node) selfID() string {
@@ -538,7 +536,7 @@ func (n *node) arrive(b *sblk) int {
 	// chainhandle.go addBlockInternal: VerifyTimestamp first
 	ok := n.verifyTs(b)
 	if b.no <= n.maxLib.no && ok {
-		n.failVeto(fmt.Sprintf("VerifyTimestamp accepted block %s numbered %d <= LIB %d this node reported", b.name, b.no, n.maxLib.no))
+		n.failVeto(fmt.Sprintf("VerifyTimestamp accepted block %s numbered %d <= LIB %d this node reported", b.name, b.no, n.maxLib.no), false)
 	}
 	if !ok {
 		n.logf("recv %s(no=%d bp=%s c=%d prev=%s): rejected, no <= LIB", b.name, b.no, w.prods[b.bp].name, b.confirms, b.prev.name)
@@ -568,7 +566,7 @@ func (n *node) arrive(b *sblk) int {
 		root := x
 		allowed := n.needReorg(root.no)
 		if root.no < n.maxLib.no && allowed {
-			n.failVeto(fmt.Sprintf("NeedReorganization allowed a reorganisation with branch root %d below LIB %d this node reported", root.no, n.maxLib.no))
+			n.failVeto(fmt.Sprintf("NeedReorganization allowed a reorganisation with branch root %d below LIB %d this node reported", root.no, n.maxLib.no), true)
 		}
 		if !allowed {
 			res = arrReorgVetoed
